@@ -1,6 +1,6 @@
 """C30 (printer round-trip mode reproduces the source) and C31 (formatting preserves meaning and is idempotent).
 
-spec/PrintLayout.tla says what a LAYOUT is: a token skeleton (spec/PrintLayoutSkel.tla: eleven small valid files that
+spec/PrintLayout.tla says what a LAYOUT is: a token skeleton (spec/PrintLayoutSkel.tla: fourteen small valid files (among them the file without any token and the file that is only a syntax statement) that
 together contain every element kind) plus one trivia string per gap; placements <<gap, trivia kind>> override the
 plain default layout; every gap has a class <scope>:<token before>|<token after> and a zone, every trivia kind a
 category, and the FEATURE VECTOR of a layout is the set of "<category>@<zone>(<class>)=<kind>" of its placements.
@@ -16,7 +16,9 @@ import vf
 ALL_KINDS = ["none", "sp", "sp2", "tab", "ff", "lf", "lf3", "blank", "crlf", "lcom", "trail", "ownlcom", "detach", "bcom",
              "spbcom", "mlbcom", "bom", "eofcom"]
 CORE_KINDS = ["none", "sp", "lf", "blank", "trail", "ownlcom", "detach", "bcom", "mlbcom"]
-SKELS = ["hdr", "msg", "body", "enum", "copt", "coptml", "lit", "svc", "ed", "odd", "empty"]
+SKELS = ["void", "syn", "hdr", "order", "msg", "body", "enum", "copt", "coptml", "lit", "svc", "ed", "odd", "empty"]
+LIGHT_SKELS = ["order"]            # its point is the declaration order of the default layout
+LIGHT_KINDS = ["blank", "ownlcom", "trail"]
 
 CFG = """SPECIFICATION Spec
 CONSTANTS
@@ -29,6 +31,8 @@ CONSTANTS
   Sim = %(sim)s
   WithItems = %(items)s
   WithSkel = %(skel)s
+  LightSkels = {%(lightskels)s}
+  LightKinds = {%(lightkinds)s}
 INVARIANTS Export ScopeOK
 CHECK_DEADLOCK FALSE
 """
@@ -42,7 +46,7 @@ def _cfg(wd, name, maxplace, exportmin, dist, first, more, sim, items=False, ske
     with open(os.path.join(wd, name), "w") as fh:
         fh.write(CFG % dict(skels=_set(SKELS), maxplace=maxplace, exportmin=exportmin, dist=dist, first=_set(first),
                             more=_set(more), sim="TRUE" if sim else "FALSE", items="TRUE" if items else "FALSE",
-                            skel="TRUE" if skel else "FALSE"))
+                            skel="TRUE" if skel else "FALSE", lightskels=_set(LIGHT_SKELS), lightkinds=_set(LIGHT_KINDS)))
     return name
 
 
